@@ -99,6 +99,17 @@ const fn mac_by_limb<const LIMBS: usize>(
     (a, carry)
 }
 
+/// Verification hook: forwards to the private [`mac_by_limb`].
+#[cfg(crypto_bigint_verif)]
+pub(crate) const fn verif_mac_by_limb<const LIMBS: usize>(
+    a: &Uint<LIMBS>,
+    b: &Uint<LIMBS>,
+    c: Limb,
+    carry: Limb,
+) -> (Uint<LIMBS>, Limb) {
+    mac_by_limb(a, b, c, carry)
+}
+
 #[cfg(all(test, feature = "rand"))]
 mod tests {
     use crate::{Limb, NonZero, Random, RandomMod, Uint};
